@@ -192,6 +192,24 @@ class Fn:
                 out.append(self.compare(op, left, lt, rc, rt))
                 left, lt = rc, rt
             return ("(" + " && ".join(out) + ")" if len(out) > 1 else out[0]), "bool"
+        if isinstance(e, ast.IfExp) and isinstance(e.test, ast.Compare) and len(e.test.ops) == 1 \
+                and isinstance(e.test.ops[0], (ast.Is, ast.IsNot)) and isinstance(e.test.left, ast.Name) \
+                and isinstance(e.test.comparators[0], ast.Constant) and e.test.comparators[0].value is None \
+                and isinstance(env.get(e.test.left.id), tuple) and env[e.test.left.id][0] == "opt":
+            # `a if x is None else b`: a match on the Optional, with x narrowed in the non-None branch
+            var = e.test.left.id
+            none_branch, some_branch = (e.body, e.orelse) if isinstance(e.test.ops[0], ast.Is) else (e.orelse, e.body)
+            sub1: list[str] = []
+            sub2: list[str] = []
+            a, at = self.expr(none_branch, env, sub1)
+            env2 = dict(env)
+            env2[var] = env[var][1]
+            b, bt = self.expr(some_branch, env2, sub2)
+            if sub1 or sub2:
+                raise Unsupported("conditional expression with a branch that can raise")
+            if at != bt:
+                raise Unsupported(f"conditional expression of two types {at} / {bt}")
+            return f"(match {lname(var)} with | none => {a} | some {lname(var)} => {b})", at
         if isinstance(e, ast.IfExp):
             sub1: list[str] = []
             sub2: list[str] = []
@@ -767,6 +785,16 @@ class Fn:
 
     def translate(self, fdef: ast.FunctionDef) -> str:
         self.msg_only = self.message_only(fdef)
+        until = self.spec.get("until")
+        if until:
+            # translate only the prefix of the body before the statement `until[0]`, then return the tuple `until[1]`
+            cut = [i for i, st in enumerate(fdef.body) if ast.unparse(st).strip() == until[0]]
+            if len(cut) != 1:
+                raise Unsupported(f"statement {until[0]!r} that ends the translated prefix not found exactly once")
+            ret = ast.parse("return (" + ", ".join(until[1]) + ")").body[0]
+            fdef = ast.FunctionDef(name=fdef.name, args=fdef.args, body=fdef.body[:cut[0]] + [ret], decorator_list=[],
+                                   returns=None, type_comment=None, lineno=fdef.lineno, col_offset=0)
+            ast.fix_missing_locations(fdef)
         env = {}
         params = []
         for n, t, *_ in self.spec["params"]:
@@ -807,6 +835,21 @@ TARGETS = [
      "attrs": {"self._items": ("items", ("list", "item")), "self._item_name": ("([] : Text)", "str")},
      "drop_self": True,
      "assume": "a sheet/table is its (identity, name) pair; type(key).__name__ (message text only) is not modelled"},
+    {"group": "Addr", "module": "numbers_parser.document", "qualname": "Table.iter_rows", "lean": "iter_rows_bounds",
+     "params": [("num_rows", "int"), ("num_cols", "int"), ("min_row", ("opt", "int")), ("max_row", ("opt", "int")),
+                ("min_col", ("opt", "int")), ("max_col", ("opt", "int"))],
+     "ret": ("tuple", ["int", "int", "int", "int"]),
+     "attrs": {"self.num_rows": ("num_rows", "int"), "self.num_cols": ("num_cols", "int")},
+     "until": ("rows = self.rows()", ["min_row", "max_row", "min_col", "max_col"]),
+     "assume": "only the defaulting and bounds-checking prefix (everything before `rows = self.rows()`) is translated; it runs "
+               "before the generator yields anything"},
+    {"group": "Addr", "module": "numbers_parser.document", "qualname": "Table.iter_cols", "lean": "iter_cols_bounds",
+     "params": [("num_rows", "int"), ("num_cols", "int"), ("min_col", ("opt", "int")), ("max_col", ("opt", "int")),
+                ("min_row", ("opt", "int")), ("max_row", ("opt", "int"))],
+     "ret": ("tuple", ["int", "int", "int", "int"]),
+     "attrs": {"self.num_rows": ("num_rows", "int"), "self.num_cols": ("num_cols", "int")},
+     "until": ("rows = self.rows()", ["min_row", "max_row", "min_col", "max_col"]),
+     "assume": "only the defaulting and bounds-checking prefix is translated"},
     {"group": "NumFmt", "module": "numbers_parser.cell", "qualname": "_format_fraction_parts_to", "lean": "format_fraction_parts_to",
      "params": [("whole", "int"), ("numerator", "int"), ("denominator", "int")], "ret": "str"},
     {"group": "NumFmt", "module": "numbers_parser.cell", "qualname": "_invert_bit_str", "lean": "invert_bit_str",
@@ -834,7 +877,7 @@ def find_def(module: str, qualname: str) -> ast.FunctionDef:
     return node
 
 
-GROUP_IMPORTS = {"A1": ["NumbersModel.Model.A1"], "Items": [], "NumFmt": []}
+GROUP_IMPORTS = {"A1": ["NumbersModel.Model.A1"], "Items": [], "NumFmt": [], "Addr": []}
 
 
 def generate(group: str) -> tuple[str, dict]:
